@@ -54,12 +54,13 @@ Definition st_equiv (a b : st) : bool :=
   && opt_eqb Z.eqb (f a) (f b) && opt_eqb Z.eqb (m a) (m b) && Z.eqb (p a) (p b)
   && opt_eqb Z.eqb (c a) (c b) && Z.eqb (ad a) (ad b) && opt_eqb Z.eqb (y a) (y b) && Z.eqb (ad2 a) (ad2 b)
   && Nat.eqb (oreg a) (oreg b) && list_eqb Z.eqb (zz a) (zz b) && Z.eqb (ade a) (ade b)
-  && opt_eqb Z.eqb (pv a) (pv b) && Z.eqb (dpv a) (dpv b).
+  && opt_eqb Z.eqb (pv a) (pv b) && Z.eqb (dpv a) (dpv b)
+  && opt_eqb Z.eqb (ch a) (ch b) && Bool.eqb (chreg a) (chreg b) && Z.eqb (u a) (u b).
 
 Definition is_opaque (o : op) : bool := match o with Opaque _ => true | _ => false end.
 (* operations that legitimately change the notifier lists *)
 Definition changes_reg (o : op) : bool :=
-  match o with ObsAdd | ObsRemove | AddZ | SetPV _ | DelPV => true | _ => false end.
+  match o with ObsAdd | ObsRemove | AddZ | SetPV _ | DelPV | RegDot | UnregDot | ReadCh | SetCV _ => true | _ => false end.
 (* handlers 6 (observer with a user filter), 7 (getter of the depends_on property) and 8 (validator of the
    synchronised partner) are outside the model as far as the fired flag goes *)
 Definition unmodelled_handler (pl : plan) : bool :=
